@@ -519,10 +519,10 @@ pack_return_value(ostream &out, int indent_level,
   } else if (TypeManager::is_integer(type)) {
     out << "#if PY_MAJOR_VERSION >= 3\n";
     indent(out, indent_level)
-      << "return PyLong_FromLong(" << return_expr << ");\n";
+      << "return PyLong_FromLong((long)" << return_expr << ");\n";
     out << "#else\n";
     indent(out, indent_level)
-      << "return PyInt_FromLong(" << return_expr << ");\n";
+      << "return PyInt_FromLong((long)" << return_expr << ");\n";
     out << "#endif\n";
 
   } else if (TypeManager::is_float(type)) {
